@@ -27,6 +27,8 @@ package rekor
 // fetchCP (captures c, lURL, treeID, l)
 //@ func FeedLog$1
 //@   returns (cp, err)
+//@   // the closure hands on ITS OWN context, the one of the feed cycle (not a longer-lived one from outside)
+//@   atcall[C19.ctx,C13.ctx] getJSON: $arg1 == ctx
 //@   requires c != nil && lURL != nil
 //@   modifies heap
 //@   ensures[C19.s] err != nil ==> cp == nil
@@ -36,6 +38,8 @@ package rekor
 // fetchProof (captures c, lURL, treeID)
 //@ func FeedLog$2
 //@   returns (p, err)
+//@   // the closure hands on ITS OWN context, the one of the feed cycle (not a longer-lived one from outside)
+//@   atcall[C19.ctx,C13.ctx] getJSON: $arg1 == ctx
 //@   requires c != nil && lURL != nil
 //@   modifies heap
 //@   ensures[C19.s] err != nil ==> p == nil
